@@ -62,7 +62,7 @@ def fp_isd(isd, drop_invisible_empty_regions=False):
         continue
     out.append(fp_elem(r))
   params = (isd.get_lang(), isd.get_cell_resolution(), isd.get_px_resolution(), isd.get_active_area(), isd.get_display_aspect_ratio())
-  return (tuple(sorted(out, key=repr)), params)
+  return (tuple(out), params)      # in the ISD's own region order: overlapping regions are painted, and the writers emit text, in that order
 
 
 def fp_doc(doc):
@@ -414,7 +414,8 @@ def check_c14(rec, doc, seed_info, r):
     if fa != fb:
       ga = {x[1] for x in fa[0]}
       gb = {x[1] for x in fb[0]}
-      key = "cached-differs:" + ("region-set" if ga != gb else "content") + default_region_bg(doc)
+      oa, ob = [x[1] for x in fa[0]], [x[1] for x in fb[0]]
+      key = "cached-differs:" + ("region-set" if ga != gb else "region-order" if oa != ob else "content") + default_region_bg(doc)
       rec.fail(key, "cached snapshot renders like the uncached one",
                f"t={t}: uncached regions {sorted(ga)}, cached {sorted(gb)}; {docgen.describe(doc, 700)}", desc,
                replayer="replayers.isd:replay", replay_args=dict(ra, t=str(t)))
